@@ -721,7 +721,7 @@ pub fn c15(ctx: &Ctx, rep: &mut Report) {
     // tail coming from the format text or from a rendered argument; through the real CLI, byte for byte
     if ctx.shard == 2 % ctx.nshards {
         let dirl = ctx.scratch("c15long");
-        for (n, tail_len) in [0usize, 1, 1022, 1023, 1024, 1025, 2048, 4095, 4096, 4097, 8191, 8192, 8193, 65536, 70001].iter().enumerate() {
+        for (n, tail_len) in [0usize, 1, 1022, 1023, 1024, 1025, 2048, 4095, 4096, 4097, 8191, 8192, 8193, 65536, 70001, 65535, 65537, 65538, 65539, 131071, 131073, 200001].iter().enumerate() {
             for via_argument in [false, true].iter() {
                 for head in ["", "head\n", "a\n\nb\n"].iter() {
                     // an array of k one-digit elements renders to 3k bytes
@@ -730,7 +730,18 @@ pub fn c15(ctx: &Ctx, rep: &mut Report) {
                         let rendered = format!("[{}]", vec!["7"; k].join(", "));
                         (format!("print(\"{}~\", array({}, 7));\nprint(\"|end\\n\");\n", head.replace('\n', "\\n"), k), format!("{}{}|end\n", head, rendered))
                     } else {
-                        let tail = "t".repeat(*tail_len);
+                        // ASCII for the even cases; for the odd ones two-, three- and four-byte characters behind 0-3 ASCII
+                        // bytes, so that some character straddles every byte offset a writer might cut at
+                        let tail = if n % 2 == 0 {
+                            "t".repeat(*tail_len)
+                        } else {
+                            let unit = ["\u{e9}", "\u{8a9e}", "\u{1f600}"][(n / 2) % 3];
+                            let mut t = "a".repeat(n % 4);
+                            while t.len() < *tail_len {
+                                t.push_str(unit);
+                            }
+                            t
+                        };
                         (format!("print(\"{}{}\");\nprint(\"|end\\n\");\n", head.replace('\n', "\\n"), tail), format!("{}{}|end\n", head, tail))
                     };
                     let file = dirl.join(format!("long{}.fml", n));
